@@ -43,6 +43,8 @@ pub(crate) const WT_A: [[u32; MAXN]; 2] = [[3, 5, 2, 4], [7, 1, 6, 9]];
 pub(crate) const WT_B: [[u32; MAXN]; 2] = [[3, 5, 2, 4], [20, 1, 9, 9]];
 /// class 1 LIGHTER than class 0 for key 0 (a shrinking update of resident 0), light newcomers
 pub(crate) const WT_S: [[u32; MAXN]; 2] = [[7, 1, 2, 4], [3, 5, 6, 9]];
+/// unit residents, a newcomer (key 2) that needs TWO victims
+pub(crate) const WT_2V: [[u32; MAXN]; 2] = [[1, 1, 2, 1], [1, 1, 2, 1]];
 /// zero weights and a heavy one
 pub(crate) const WT_Z: [[u32; MAXN]; 2] = [[0, 4, 0, 3], [5, 0, 4, 0]];
 
